@@ -524,13 +524,19 @@ pub struct ObsB {
 #[derive(PartialEq, Clone, Copy, Debug)]
 enum Kind { Step, Chord, Tablet }
 
+/// What the loop owes the virtual keyboard, in order. Events are compared as a stream: the
+/// statement fixes which events are written, once and in which order — not how they are cut into
+/// write calls, nor that a batch is written before the next read (only before the loop waits again).
+struct Group { kind: Kind, evs: VecDeque<Event>, set: Vec<KeyCode>, before: Option<Vec<KeyCode>>, tablet_on: bool }
+
+struct Timer { keys: Vec<KeyCode>, lo: u64, hi: u64, iv: u64, delay: u64, anchor_open: bool }
+
 pub fn check_trace(l: &Layout, trace: &[Item], result: &Result<(), String>, en: &EnB, obs: &mut ObsB) -> Option<Violation> {
   let mut mapper = Mapper::for_layout(l);
   let mut tablet = false;
-  let mut rep: Option<(Vec<KeyCode>, u64, u64)> = None; // keys, deadline_us, interval_us
+  let mut timer: Option<Timer> = None;
   let mut held: Vec<KeyCode> = vec![];
-  let mut pending: VecDeque<(Vec<Event>, Kind)> = VecDeque::new();
-  let mut pending_rep: Option<ResultingRepeat> = None;
+  let mut pending: VecDeque<Group> = VecDeque::new();
   let mut failed = false;
   let mut ended = false;
   let mut owed_k = false; let mut owed_t = false;
@@ -544,13 +550,13 @@ pub fn check_trace(l: &Layout, trace: &[Item], result: &Result<(), String>, en: 
     let lab: &str = $label;
     if en.on(lab) { if first.is_none() { first = Some(Violation::new(lab, $at, $detail)); } } else { obs.other_property_disagreements += 1; }
   }}; }
-  fn apply_rep(rep: &mut Option<(Vec<KeyCode>, u64, u64)>, pr: &mut Option<ResultingRepeat>, t: u64, obs: &mut ObsB) {
-    if let Some(r) = pr.take() { match r {
-      ResultingRepeat::Repeating { keys, delay_ms, interval_ms } => { *rep = Some((keys, t + (delay_ms as u64) * 1000, (interval_ms as u64) * 1000)); }
-      ResultingRepeat::Disabled => { if rep.is_some() { obs.timer_disarmed_by_event += 1; } *rep = None; }
-      ResultingRepeat::NoChange => { if rep.is_some() { obs.nochange_while_armed += 1; } }
-    } }
-  }
+  macro_rules! report_cause { ($label:expr, $at:expr, $detail:expr, $cause:expr) => {{
+    let lab: &str = $label;
+    if en.on(lab) { if first.is_none() { first = Some(Violation::new(lab, $at, $detail).with_cause($cause)); } } else { obs.other_property_disagreements += 1; }
+  }}; }
+  fn group_str(g: &Group) -> String { if g.kind == Kind::Tablet { format!("release of {}", keys_str(&g.set)) } else { evs_str(&g.evs.iter().cloned().collect::<Vec<_>>()) } }
+  fn group_done(g: &Group) -> bool { if g.kind == Kind::Tablet { g.set.is_empty() } else { g.evs.is_empty() } }
+
   for (i, it) in trace.iter().enumerate() {
     if first.is_some() { break; }
     sh.u(match it { Item::Register => 1, Item::Poll { res, .. } => match res { PollRes::Devices(d) => 10 + d.len() as u64 * 2 + (d.first() == Some(&VDevice::Tablet)) as u64, PollRes::TimedOut => 3, PollRes::Interrupted => 4 },
@@ -560,42 +566,53 @@ pub fn check_trace(l: &Layout, trace: &[Item], result: &Result<(), String>, en: 
       continue;
     }
     if ended { report!("C10-call-after-end", i, format!("driver call after the device reported it is gone: {}", item_str(it))); continue; }
-    // anything the loop owes must be sent before any other driver call
-    if !matches!(it, Item::Send { .. }) && !matches!(it, Item::Fail { .. }) {
-      while let Some((exp, kind)) = pending.pop_front() {
-        // a chord none of whose keys can be pressed is empty: writing nothing is as good as
-        // writing an empty batch
-        if kind == Kind::Chord && exp.is_empty() { continue; }
-        match kind {
-          Kind::Step => {
-            report!("C10-missing-send", i, format!("the mapper's output {} was not written before {}", evs_str(&exp), item_str(it)));
-            if tablet_events > 0 { report!("C12-not-fresh", i, format!("after a tablet-mode change a freshly started mapper answers {}, the loop wrote nothing", evs_str(&exp))); report!("C06-loop-not-fresh", i, format!("after a tablet-mode change a freshly started mapper answers {}, the loop wrote nothing", evs_str(&exp))); }
-          }
-          Kind::Chord => report!("C11-missing-chord", i, format!("the timer fired but no repeat chord {} was written before {}", evs_str(&exp), item_str(it))),
-          Kind::Tablet => report!("C12-missing-release", i, format!("tablet-mode change but the held keys were not released ({}) before {}", evs_str(&exp), item_str(it))),
-        }
-        for e in &exp { fold1(&mut held, e); }
-        apply_rep(&mut rep, &mut pending_rep, match it { Item::Poll { t_in, .. } => *t_in, Item::NextK { t_out, .. } | Item::NextT { t_out, .. } => *t_out, _ => 0 }, obs);
-      }
-    }
     match it {
       Item::Register => {}
       Item::Fail { .. } => { failed = true; obs.nt_c20 = true; }
       Item::Poll { t_in, timeout, res, t_out: _ } => {
+        // before the loop waits again everything it owes must have been written
+        while let Some(g) = pending.pop_front() {
+          if group_done(&g) { continue; }
+          match g.kind {
+            Kind::Step => {
+              report!("C10-missing-send", i, format!("the loop went back to waiting without having written the mapper's output {}", group_str(&g)));
+              if tablet_events > 0 { report!("C12-not-fresh", i, format!("after a tablet-mode change a freshly started mapper answers {}, the loop wrote nothing", group_str(&g))); report!("C06-loop-not-fresh", i, format!("after a tablet-mode change a freshly started mapper answers {}, the loop wrote nothing", group_str(&g))); }
+            }
+            Kind::Chord => report!("C11-missing-chord", i, format!("the timer fired but the repeat chord {} was not written before the next wait", group_str(&g))),
+            Kind::Tablet => report!("C12-missing-release", i, format!("tablet-mode change but the held keys were not released ({}) before the next wait", group_str(&g))),
+          }
+          for e in &g.evs { fold1(&mut held, e); }
+          for k in &g.set { held.retain(|x| x != k); }
+        }
         if owed_k { report!("C10-undrained", i, "polled again without reading the keyboard until Busy/End after a readiness notification".to_string()); owed_k = false; }
         if owed_t { report!("C10-undrained", i, "polled again without reading the tablet switch until Busy/End after a readiness notification".to_string()); owed_t = false; }
-        let exp_to = rep.as_ref().map(|(_, d, _)| if *t_in >= *d { 1000 } else { *d - *t_in });
-        let overdue = rep.as_ref().map(|(_, d, _)| *t_in >= *d).unwrap_or(false);
-        if overdue { obs.overdue_polls += 1; }
-        // armed and not yet due: the timeout must be exactly deadline - now (the clock is simulated);
-        // overdue: anything up to 1 ms; not armed: a needless timeout is tolerated here, because the
-        // statement only forbids the chord such a wake-up might send (checked at the send)
-        let timeout_ok = match (&rep, timeout) {
-          (None, _) => true,
-          (Some(_), None) => false,
-          (Some(_), Some(t)) => if overdue { *t <= 1000 } else { Some(*t) == exp_to },
-        };
-        if !timeout_ok { report!("C11-timeout", i, format!("poll at t={}us: expected timeout {:?}us (timer {}), got {:?}us", t_in, exp_to, rep.as_ref().map(|(k, d, iv)| format!("keys {} deadline {}us interval {}us", keys_str(k), d, iv)).unwrap_or("not armed".into()), timeout)); }
+        // timer: the deadline is anchored somewhere between the moment the arming event was read
+        // and the moment the loop waits again (the statement does not say when exactly the clock is
+        // read); once a poll has pinned it down, every later deadline is exact
+        if let Some(t) = timer.as_mut() { if t.anchor_open { t.hi = t_in.saturating_add(t.delay); t.anchor_open = false; } }
+        let mut timeout_ok = true;
+        let mut overdue_possible = false;
+        if let Some(t) = timer.as_mut() {
+          overdue_possible = t.lo <= *t_in;
+          match timeout {
+            None => { timeout_ok = false; }
+            Some(x) => {
+              let d = t_in.saturating_add(*x);
+              let exact_ok = *x > 0 && d >= t.lo && d <= t.hi && d > *t_in;
+              let overdue_ok = *x <= 1000 && t.lo <= *t_in;
+              if !(exact_ok || overdue_ok) { timeout_ok = false; }
+              else if exact_ok && !overdue_ok { t.lo = d; t.hi = d; }
+              else if overdue_ok && !exact_ok { t.hi = t.hi.min(*t_in); }
+              else { /* both readings possible: keep the interval */ t.hi = t.hi.min(d.max(*t_in)); }
+            }
+          }
+          if overdue_possible { obs.overdue_polls += 1; }
+        }
+        if !timeout_ok {
+          let t = timer.as_ref().unwrap();
+          report!("C11-timeout", i, format!("poll at t={}us with timeout {:?}us, but the repeat timer (keys {}, interval {}us) is due between {}us and {}us: expected {}", t_in, timeout, keys_str(&t.keys), t.iv, t.lo, t.hi,
+            if t.lo <= *t_in && t.hi <= *t_in { "at most 1000us (overdue)".to_string() } else { format!("{}..{}us", t.lo.saturating_sub(*t_in), t.hi.saturating_sub(*t_in)) }));
+        }
         last_poll_timed_out = false;
         match res {
           PollRes::Devices(ds) => {
@@ -607,17 +624,17 @@ pub fn check_trace(l: &Layout, trace: &[Item], result: &Result<(), String>, en: 
           }
           PollRes::TimedOut => {
             last_poll_timed_out = true;
-            if rep.is_none() { prev_interrupt_or_spurious = true; }
-            if let Some((keys, d, iv)) = rep.as_mut() {
+            if timer.is_none() { prev_interrupt_or_spurious = true; }
+            if let Some(t) = timer.as_mut() {
               if !tablet {
-                let ks: Vec<KeyCode> = keys.iter().filter(|k| !held.contains(k)).cloned().collect();
-                if ks.len() != keys.len() { obs.chord_key_held += 1; }
-                let mut ch = vec![];
-                for k in &ks { ch.push(Pressed(*k)); }
-                for k in ks.iter().rev() { ch.push(Released(*k)); }
-                pending.push_back((ch, Kind::Chord));
-                *d += *iv;
-              } else { rep = None; }
+                let ks: Vec<KeyCode> = t.keys.iter().filter(|k| !held.contains(k)).cloned().collect();
+                if ks.len() != t.keys.len() { obs.chord_key_held += 1; }
+                let mut ch = VecDeque::new();
+                for k in &ks { ch.push_back(Pressed(*k)); }
+                for k in ks.iter().rev() { ch.push_back(Released(*k)); }
+                pending.push_back(Group { kind: Kind::Chord, evs: ch, set: vec![], before: None, tablet_on: false });
+                t.lo += t.iv; t.hi += t.iv;
+              } else { timer = None; }
             }
           }
           PollRes::Interrupted => { prev_interrupt_or_spurious = true; }
@@ -632,9 +649,15 @@ pub fn check_trace(l: &Layout, trace: &[Item], result: &Result<(), String>, en: 
             if events_this_wakeup >= 2 { obs.nt_c10 = true; }
             if !tablet {
               let sr = mapper.step(e.clone());
-              pending_rep = Some(sr.repeat);
-              if !sr.events.is_empty() { pending.push_back((sr.events, Kind::Step)); }
-              else { apply_rep(&mut rep, &mut pending_rep, *t_out, obs); }
+              if !sr.events.is_empty() { pending.push_back(Group { kind: Kind::Step, evs: sr.events.into_iter().collect(), set: vec![], before: None, tablet_on: false }); }
+              match sr.repeat {
+                ResultingRepeat::Repeating { keys, delay_ms, interval_ms } => {
+                  let delay = (delay_ms as u32 as u64).saturating_mul(1000); let iv = (interval_ms as u32 as u64).saturating_mul(1000);
+                  timer = Some(Timer { keys, lo: t_out.saturating_add(delay), hi: u64::MAX, iv, delay, anchor_open: true });
+                }
+                ResultingRepeat::Disabled => { if timer.is_some() { obs.timer_disarmed_by_event += 1; } timer = None; }
+                ResultingRepeat::NoChange => { if timer.is_some() { obs.nochange_while_armed += 1; } }
+              }
             } else { obs.reads_in_tablet_mode += 1; }
           }
         }
@@ -646,68 +669,94 @@ pub fn check_trace(l: &Layout, trace: &[Item], result: &Result<(), String>, en: 
           Some(on) => {
             events_this_wakeup += 1;
             if events_this_wakeup >= 2 { obs.nt_c10 = true; }
-            if *on && (!held.is_empty() || rep.is_some()) { obs.nt_c12 = true; if !held.is_empty() { obs.tablet_on_while_held += 1; } if rep.is_some() { obs.tablet_on_while_timer += 1; } }
+            // what will be held once everything owed so far has been written
+            let mut vheld = held.clone();
+            for g in &pending { for e in &g.evs { fold1(&mut vheld, e); } for k in &g.set { vheld.retain(|x| x != k); } }
+            if *on && (!vheld.is_empty() || timer.is_some()) { obs.nt_c12 = true; if !vheld.is_empty() { obs.tablet_on_while_held += 1; } if timer.is_some() { obs.tablet_on_while_timer += 1; } }
             tablet = *on;
-            rep = None;
+            timer = None;
             tablet_events += 1;
-            // owed: one batch releasing exactly the keys held on the virtual keyboard (the statement
-            // does not fix the order); afterwards "mapping resumes as from a fresh start", so the
-            // model goes on with a brand-new mapper instead of trusting release_all's reset
-            let evs: Vec<Event> = sorted(&held).iter().map(|k| Released(*k)).collect();
+            // owed: the keys held on the virtual keyboard are released (the statement fixes no order);
+            // afterwards "mapping resumes as from a fresh start": the model goes on with a brand-new
+            // mapper instead of trusting release_all's reset
             mapper = Mapper::for_layout(l);
-            if !evs.is_empty() { pending.push_back((evs, Kind::Tablet)); }
+            if !vheld.is_empty() { pending.push_back(Group { kind: Kind::Tablet, evs: VecDeque::new(), set: sorted(&vheld), before: None, tablet_on: *on }); }
           }
         }
       }
-      Item::Send { evs, t_out } => {
+      Item::Send { evs, t_out: _ } => {
         obs.sends += 1;
-        // an owed empty chord that the loop chose not to write must not swallow this send
-        while matches!(pending.front(), Some((exp, Kind::Chord)) if exp.is_empty()) && !evs.is_empty() { pending.pop_front(); }
-        if evs.is_empty() && !matches!(pending.front(), Some((_, Kind::Chord))) { report!("C10-empty-send", i, "an empty batch was written to the virtual keyboard".to_string()); }
-        let kind = match pending.pop_front() {
-          None => {
-            if tablet { report!("C12-send-in-tablet", i, format!("wrote {} while in tablet mode", evs_str(evs))); }
-            else if last_poll_timed_out { report!("C11-unexpected-chord", i, format!("wrote {} after a time-out although no repeat chord is due", evs_str(evs))); }
-            else { report!("C10-unexpected-send", i, format!("wrote {} although the mapper produced nothing to write", evs_str(evs))); }
-            if !tablet && tablet_events > 0 { report!("C12-not-fresh", i, format!("after a tablet-mode change the loop wrote {} where a freshly started loop writes nothing", evs_str(evs))); report!("C06-loop-not-fresh", i, format!("after a tablet-mode change the loop wrote {} where a freshly started loop writes nothing", evs_str(evs))); }
-            Kind::Step
-          }
-          Some((exp, kind)) => {
-            let same = if kind == Kind::Tablet { evs.len() == exp.len() && evs.iter().all(|e| matches!(e, Released(_))) && sorted(&evs.iter().map(ev_key).collect::<Vec<_>>()) == sorted(&exp.iter().map(ev_key).collect::<Vec<_>>()) } else { exp == *evs };
-            if !same {
-              match kind {
-                Kind::Chord => {
-                  // cause: the loop pressed the full chord although some of its keys are held
-                  let full: Option<Vec<Event>> = rep.as_ref().map(|(keys, _, _)| { let mut c = vec![]; for k in keys { c.push(Pressed(*k)); } for k in keys.iter().rev() { c.push(Released(*k)); } c });
-                  let cause = if full.as_ref() == Some(evs) { "chord_includes_held_key" } else { "" };
-                  if en.on("C11") { if first.is_none() { first = Some(Violation::new("C11-chord", i, format!("repeat chord: expected {} (repeat keys not already held, pressed in listed order, released in reverse), got {} with {} held", evs_str(&exp), evs_str(evs), keys_str(&held))).with_cause(cause)); } } else { obs.other_property_disagreements += 1; }
-                }
-                Kind::Tablet => report!("C12-release", i, format!("tablet-mode change: expected release batch {}, got {} (held {})", evs_str(&exp), evs_str(evs), keys_str(&held))),
-                Kind::Step => {
-                  report!("C10-payload", i, format!("expected the mapper's output {}, the loop wrote {}", evs_str(&exp), evs_str(evs)));
-                  if tablet_events > 0 { report!("C12-not-fresh", i, format!("after a tablet-mode change a freshly started mapper answers {}, the loop wrote {}", evs_str(&exp), evs_str(evs))); report!("C06-loop-not-fresh", i, format!("after a tablet-mode change a freshly started mapper answers {}, the loop wrote {}", evs_str(&exp), evs_str(evs))); }
-                }
-              }
+        while matches!(pending.front(), Some(g) if group_done(g) && !(g.kind == Kind::Chord && evs.is_empty() && g.before.is_none())) { pending.pop_front(); }
+        if evs.is_empty() {
+          // an empty batch is acceptable only as the write of an empty repeat chord
+          match pending.front() { Some(g) if g.kind == Kind::Chord && g.evs.is_empty() => { pending.pop_front(); obs.chords += 1; if obs.chords >= 2 { obs.nt_c11 = true; } }
+            _ => { if last_poll_timed_out && timer.is_none() && pending.is_empty() { report!("C11-unexpected-chord", i, "wrote [] after a time-out although no repeat chord is due".to_string()); if !tablet && tablet_events > 0 { report!("C12-not-fresh", i, "after a tablet-mode change the loop wrote [] where a freshly started loop writes nothing".to_string()); report!("C06-loop-not-fresh", i, "after a tablet-mode change the loop wrote [] where a freshly started loop writes nothing".to_string()); } if tablet { report!("C12-send-in-tablet", i, "wrote [] while in tablet mode".to_string()); } }
+                   else { report!("C10-empty-send", i, "an empty batch was written to the virtual keyboard".to_string()); } } }
+          continue;
+        }
+        if evs.len() >= 3 && matches!(pending.front(), Some(g) if g.kind == Kind::Step) { obs.nt_c19 = true; }
+        let mut adopt_rest = false;
+        for (ei, e) in evs.iter().enumerate() {
+          if adopt_rest { fold1(&mut held, e); continue; }
+          while matches!(pending.front(), Some(g) if group_done(g)) { pending.pop_front(); }
+          let kind = match pending.front_mut() {
+            None => {
+              let rest = evs_str(&evs[ei..]);
+              if tablet { report!("C12-send-in-tablet", i, format!("wrote {} while in tablet mode", rest)); }
+              else if last_poll_timed_out { report!("C11-unexpected-chord", i, format!("wrote {} after a time-out although no repeat chord is due", rest)); }
+              else { report!("C10-unexpected-send", i, format!("wrote {} although the mapper produced nothing (more) to write", rest)); }
+              if !tablet && tablet_events > 0 { report!("C12-not-fresh", i, format!("after a tablet-mode change the loop wrote {} where a freshly started loop writes nothing", rest)); report!("C06-loop-not-fresh", i, format!("after a tablet-mode change the loop wrote {} where a freshly started loop writes nothing", rest)); }
+              adopt_rest = true; fold1(&mut held, e); continue;
             }
-            kind
+            Some(g) => {
+              let ok = match g.kind {
+                Kind::Tablet => { if let Released(k) = e { if let Some(p) = g.set.iter().position(|x| x == k) { g.set.remove(p); true } else { false } } else { false } }
+                _ => { if g.evs.front() == Some(e) { if g.kind == Kind::Chord && g.before.is_none() { g.before = Some(held.clone()); } g.evs.pop_front(); true } else { false } }
+              };
+              if !ok {
+                let exp = group_str(g); let kind = g.kind; let got = evs_str(&evs[ei..]);
+                pending.pop_front();
+                match kind {
+                  Kind::Chord => {
+                    let includes_held = matches!(e, Pressed(k) if held.contains(k) && timer.as_ref().map(|t| t.keys.contains(k)).unwrap_or(false));
+                    report_cause!("C11-chord", i, format!("repeat chord: expected {} next (repeat keys not already held, pressed in listed order, released in reverse), the loop wrote {} with {} held", exp, got, keys_str(&held)), if includes_held { "chord_includes_held_key" } else { "" });
+                  }
+                  Kind::Tablet => report!("C12-release", i, format!("tablet-mode change: expected the {}, the loop wrote {} (held {})", exp, got, keys_str(&held))),
+                  Kind::Step => {
+                    report!("C10-payload", i, format!("expected the mapper's output {} next, the loop wrote {}", exp, got));
+                    if tablet_events > 0 { report!("C12-not-fresh", i, format!("after a tablet-mode change a freshly started mapper answers {}, the loop wrote {}", exp, got)); report!("C06-loop-not-fresh", i, format!("after a tablet-mode change a freshly started mapper answers {}, the loop wrote {}", exp, got)); }
+                  }
+                }
+                adopt_rest = true; fold1(&mut held, e); continue;
+              }
+              g.kind
+            }
+          };
+          // fold the written event strictly
+          let mut red = None;
+          fold(&mut held, std::slice::from_ref(e), &mut red);
+          if let Some(d) = red {
+            if kind == Kind::Chord { report!("C11-chord-redundant", i, format!("repeat chord event {}: {}", ev_str(e), d)); }
+            else { report!("C19-loop", i, format!("batch {}: {}", evs_str(evs), d)); }
           }
-        };
-        let before = held.clone();
-        let mut red = None;
-        fold(&mut held, evs, &mut red);
-        if let Some(d) = red {
-          if kind == Kind::Chord { report!("C11-chord-redundant", i, format!("repeat chord {}: {}", evs_str(evs), d)); }
-          else { report!("C19-loop", i, format!("batch {}: {}", evs_str(evs), d)); }
+          // group completed?
+          if let Some(g) = pending.front() {
+            if group_done(g) {
+              match g.kind {
+                Kind::Chord => {
+                  obs.chords += 1;
+                  let before = g.before.clone().unwrap_or_default();
+                  if !before.is_empty() { obs.chords_while_held += 1; obs.nt_c11 = true; }
+                  if obs.chords >= 2 { obs.nt_c11 = true; }
+                  if sorted(&before) != sorted(&held) { report!("C11-not-transient", i, format!("held before the chord {} / after {}", keys_str(&before), keys_str(&held))); }
+                }
+                Kind::Tablet => { if g.tablet_on && !held.is_empty() { report!("C12-still-held", i, format!("after the tablet-on release batch {} is still held", keys_str(&held))); } }
+                Kind::Step => {}
+              }
+              pending.pop_front();
+            }
+          }
         }
-        if kind == Kind::Chord {
-          obs.chords += 1;
-          if !before.is_empty() { obs.chords_while_held += 1; obs.nt_c11 = true; }
-          if obs.chords >= 2 { obs.nt_c11 = true; }
-          if sorted(&before) != sorted(&held) { report!("C11-not-transient", i, format!("held before the chord {} / after {}", keys_str(&before), keys_str(&held))); }
-        }
-        if kind == Kind::Tablet && tablet && !held.is_empty() { report!("C12-still-held", i, format!("after the tablet-on release batch {} is still held", keys_str(&held))); }
-        if kind == Kind::Step && evs.len() >= 3 { obs.nt_c19 = true; }
-        if kind != Kind::Chord { apply_rep(&mut rep, &mut pending_rep, *t_out, obs); }
       }
     }
   }
@@ -720,12 +769,12 @@ pub fn check_trace(l: &Layout, trace: &[Item], result: &Result<(), String>, en: 
       Err(e) => { if !e.contains(INJECTED) { report!("C20-error-replaced", n, format!("the loop returned a different error: {}", e)); } }
     }
   } else {
-    while let Some((exp, kind)) = pending.pop_front() {
-      if kind == Kind::Chord && exp.is_empty() { continue; }
-      match kind {
-        Kind::Step => report!("C10-missing-send", n, format!("the mapper's output {} was never written", evs_str(&exp))),
-        Kind::Chord => report!("C11-missing-chord", n, format!("repeat chord {} was never written", evs_str(&exp))),
-        Kind::Tablet => report!("C12-missing-release", n, format!("release batch {} was never written", evs_str(&exp))),
+    while let Some(g) = pending.pop_front() {
+      if group_done(&g) { continue; }
+      match g.kind {
+        Kind::Step => report!("C10-missing-send", n, format!("the mapper's output {} was never written", group_str(&g))),
+        Kind::Chord => report!("C11-missing-chord", n, format!("repeat chord {} was never written", group_str(&g))),
+        Kind::Tablet => report!("C12-missing-release", n, format!("the {} was never written", group_str(&g))),
       }
     }
     match result {
